@@ -207,6 +207,162 @@ func registerTimeIntrinsics() {
 	}
 }
 
+// ---- time.Time binary codec (15-byte version-1 form). Concrete times are encoded exactly. A
+// symbolic time is encoded as 12 fresh byte symbols remembered in a per-path side table, and
+// decoding exactly those symbols gives the time back (the codec as an uninterpreted bijection:
+// what callers such as models.point rely on). Decoding other symbolic bytes yields an
+// unconstrained time (an over-approximation; the codec itself is not under test).
+
+const unixToInternal = 62135596800
+
+type timeCodecEntry struct {
+	hi, lo *Term
+	bytes  [12]*Term
+}
+
+func inTimeMarshalBinary(e *Engine, c *frame, f *ssa.Function, a []Value) Value {
+	set, hi, lo := e.timeWide(a[0])
+	out := make([]Value, 15)
+	out[0] = e.tt.Const(8, 1)
+	out[13], out[14] = e.tt.Const(8, 0xff), e.tt.Const(8, 0xff)
+	nilErr := Iface{}
+	if set.IsConst() && set.val == 0 {
+		// the zero Time: sec = 0, nsec = 0
+		for i := 1; i <= 12; i++ {
+			out[i] = e.tt.Const(8, 0)
+		}
+		return Tuple{out, nilErr}
+	}
+	if !set.IsConst() {
+		if e.Decide(e.tt.Eq(set, e.tt.Const(1, 0))) {
+			for i := 1; i <= 12; i++ {
+				out[i] = e.tt.Const(8, 0)
+			}
+			return Tuple{out, nilErr}
+		}
+	}
+	if hi.IsConst() && lo.IsConst() && hi.val == e.sext8(lo).val {
+		ns := lo.S()
+		sec := ns / 1000000000
+		nsec := ns % 1000000000
+		if nsec < 0 {
+			nsec += 1000000000
+			sec--
+		}
+		sec += unixToInternal
+		for i := 0; i < 8; i++ {
+			out[1+i] = e.tt.Const(8, uint64(sec>>(56-8*uint(i)))&0xff)
+		}
+		for i := 0; i < 4; i++ {
+			out[9+i] = e.tt.Const(8, uint64(nsec>>(24-8*uint(i)))&0xff)
+		}
+		return Tuple{out, nilErr}
+	}
+	ent := &timeCodecEntry{hi: hi, lo: lo}
+	for i := 0; i < 12; i++ {
+		ent.bytes[i] = e.freshVar("timeBin", 8)
+		out[1+i] = ent.bytes[i]
+	}
+	if e.path.timeCodec == nil {
+		e.path.timeCodec = map[*Term]*timeCodecEntry{}
+	}
+	e.path.timeCodec[ent.bytes[0]] = ent
+	return Tuple{out, nilErr}
+}
+
+func (e *Engine) mkError(msg string) Value {
+	errPkg := e.prog.ImportedPackage("errors")
+	es := errPkg.Members["errorString"].(*ssa.Type)
+	cell := new(Value)
+	*cell = Struct{Str{S: msg}}
+	return Iface{T: types.NewPointer(es.Type()), V: cell}
+}
+
+func inTimeUnmarshalBinary(e *Engine, c *frame, f *ssa.Function, a []Value) Value {
+	dst := a[0].(*Value)
+	data := a[1].([]Value)
+	if len(data) == 0 {
+		return e.mkError("Time.UnmarshalBinary: no data")
+	}
+	ver := data[0].(*Term)
+	isV1 := e.tt.Eq(ver, e.tt.Const(8, 1))
+	isV2 := e.tt.Eq(ver, e.tt.Const(8, 2))
+	if !e.Decide(e.tt.Or(isV1, isV2)) {
+		return e.mkError("Time.UnmarshalBinary: unsupported version")
+	}
+	want := 15
+	if e.Decide(isV2) {
+		want = 16
+	}
+	if len(data) != want {
+		return e.mkError("Time.UnmarshalBinary: invalid length")
+	}
+	bs := make([]*Term, 12)
+	allConst := true
+	for i := range bs {
+		bs[i] = data[1+i].(*Term)
+		if !bs[i].IsConst() {
+			allConst = false
+		}
+	}
+	var tv Value
+	switch {
+	case allConst:
+		var sec uint64
+		for i := 0; i < 8; i++ {
+			sec = sec<<8 | bs[i].val
+		}
+		var nsec uint32
+		for i := 0; i < 4; i++ {
+			nsec = nsec<<8 | uint32(bs[8+i].val)
+		}
+		s := new(big.Int).SetInt64(int64(sec))
+		s.Sub(s, big.NewInt(unixToInternal))
+		s.Mul(s, big.NewInt(1000000000))
+		s.Add(s, big.NewInt(int64(int32(nsec))))
+		if s.BitLen() > 70 {
+			panic(e.unsupported("time.UnmarshalBinary: instant outside the 72-bit range of the time abstraction"))
+		}
+		// two's complement split into hi8:lo64
+		mod := new(big.Int).Lsh(big.NewInt(1), 72)
+		if s.Sign() < 0 {
+			s.Add(s, mod)
+		}
+		lo := new(big.Int).And(s, new(big.Int).SetUint64(^uint64(0))).Uint64()
+		hi := new(big.Int).Rsh(s, 64).Uint64() & 0xff
+		if sec == 0 && nsec == 0 {
+			tv = Struct{e.tt.Const(64, 0), e.tt.Const(64, 0), (*Value)(nil)} // the zero Time
+		} else {
+			tv = e.mkTimeWide(e.tt.Const(8, hi), e.tt.Const(64, lo))
+		}
+	default:
+		var ent *timeCodecEntry
+		if e.path.timeCodec != nil {
+			ent = e.path.timeCodec[bs[0]]
+		}
+		match := ent != nil
+		if match {
+			for i := range bs {
+				if ent.bytes[i] != bs[i] {
+					match = false
+				}
+			}
+		}
+		if match {
+			tv = e.mkTimeWide(ent.hi, ent.lo)
+		} else {
+			tv = e.mkTimeWide(e.freshVar("timeDecHi", 8), e.freshVar("timeDecLo", 64))
+		}
+	}
+	e.store(dst, tv)
+	return Iface{}
+}
+
+func init() {
+	intrinsics["(time.Time).MarshalBinary"] = inTimeMarshalBinary
+	intrinsics["(*time.Time).UnmarshalBinary"] = inTimeUnmarshalBinary
+}
+
 func timeType(f *ssa.Function) types.Type {
 	return f.Pkg.Members["Time"].(*ssa.Type).Type()
 }
